@@ -2287,6 +2287,107 @@ where
 #[allow(missing_docs)]
 pub mod verif_hooks {
 
+    /// The events both DOM parsers hand to their visitor, one token per event:
+    /// `<` `>` document, `n` `t` `f`, `u<hex>` `i-<hex>` `f<bits>` `r<hex literal>`, `s<hex utf8>` (strings and member names),
+    /// `[` `]<count>` `{` `}<count>`.
+    pub struct EventRecorder {
+        pub events: Vec<String>,
+    }
+
+    fn hexs(b: &[u8]) -> String {
+        b.iter().map(|c| format!("{c:02x}")).collect()
+    }
+
+    impl<'de> crate::value::visitor::JsonVisitor<'de> for EventRecorder {
+        fn visit_dom_start(&mut self) -> bool {
+            self.events.push("<".into());
+            true
+        }
+        fn visit_null(&mut self) -> bool {
+            self.events.push("n".into());
+            true
+        }
+        fn visit_bool(&mut self, val: bool) -> bool {
+            self.events.push(if val { "t" } else { "f" }.into());
+            true
+        }
+        fn visit_u64(&mut self, val: u64) -> bool {
+            self.events.push(format!("u{val:x}"));
+            true
+        }
+        fn visit_i64(&mut self, val: i64) -> bool {
+            self.events.push(format!("i-{:x}", val.unsigned_abs()));
+            true
+        }
+        fn visit_f64(&mut self, val: f64) -> bool {
+            self.events.push(format!("f{:016x}", val.to_bits()));
+            true
+        }
+        fn visit_raw_number(&mut self, val: &str) -> bool {
+            self.events.push(format!("r{}", hexs(val.as_bytes())));
+            true
+        }
+        fn visit_borrowed_raw_number(&mut self, val: &str) -> bool {
+            self.events.push(format!("r{}", hexs(val.as_bytes())));
+            true
+        }
+        fn visit_str(&mut self, value: &str) -> bool {
+            self.events.push(format!("s{}", hexs(value.as_bytes())));
+            true
+        }
+        fn visit_borrowed_str(&mut self, value: &'de str) -> bool {
+            self.events.push(format!("s{}", hexs(value.as_bytes())));
+            true
+        }
+        fn visit_object_start(&mut self, _hint: usize) -> bool {
+            self.events.push("{".into());
+            true
+        }
+        fn visit_object_end(&mut self, len: usize) -> bool {
+            self.events.push(format!("}}{len}"));
+            true
+        }
+        fn visit_array_start(&mut self, _hint: usize) -> bool {
+            self.events.push("[".into());
+            true
+        }
+        fn visit_array_end(&mut self, len: usize) -> bool {
+            self.events.push(format!("]{len}"));
+            true
+        }
+        fn visit_key(&mut self, key: &str) -> bool {
+            self.events.push(format!("s{}", hexs(key.as_bytes())));
+            true
+        }
+        fn visit_borrowed_key(&mut self, key: &'de str) -> bool {
+            self.events.push(format!("s{}", hexs(key.as_bytes())));
+            true
+        }
+        fn visit_dom_end(&mut self) -> bool {
+            self.events.push(">".into());
+            true
+        }
+    }
+
+    /// run `parse_dom` (in place, over a padded copy) or `parse_dom2` (copying) with a recording visitor
+    pub fn dom_events(json: &[u8], copying: bool) -> crate::Result<Vec<String>> {
+        let mut rec = EventRecorder { events: Vec::new() };
+        if copying {
+            let mut strbuf = Vec::new();
+            let mut parser = super::Parser::new(crate::reader::Read::new(json, false));
+            parser.parse_dom2(&mut rec, &mut strbuf)?;
+        } else {
+            let mut buffer = Vec::with_capacity(json.len() + 64);
+            buffer.extend_from_slice(json);
+            buffer.extend_from_slice(&b"x\"x"[..]);
+            buffer.extend_from_slice(&[0; 61]);
+            let slice = crate::reader::PaddedSliceRead::new(buffer.as_mut_slice());
+            let mut parser = super::Parser::new(slice);
+            parser.parse_dom(&mut rec)?;
+        }
+        Ok(rec.events)
+    }
+
     pub fn is_whitespace(ch: u8) -> bool {
         super::is_whitespace(ch)
     }
